@@ -14,7 +14,7 @@ pub fn run(args: &Args, r: &mut Report) {
         non-ASCII bytes, full-width digits, '+N', duplicate headers); after the history the process is killed and restarted on \
         the surviving storage.  Oracle: digits-only value fitting u64 -> min(N, 86400) s, anything else -> absent ('+N' and \
         conflicting duplicates are don't-cares); exchanges without an authenticated response leave the interval unchanged.  \
-        Shape key = mode, CUP, paths, header-placement vector.  Non-trivial = at least one header present."
+        A sixth of the cases run on a store that rejects every write of one unrelated entry (last contact, failure counter or an app record).  Shape key = mode, CUP, paths, header-placement vector, failing entry.  Non-trivial = at least one header present."
         .into();
     r.require(&[
         "c07-poll-policy-next",
@@ -58,6 +58,16 @@ pub fn run(args: &Args, r: &mut Report) {
         if rng.chance(1, 3) {
             case.crash_at = Some(rng.below(160));
             case.shape.push("crash".into());
+        }
+        // a backend that cannot write one *other* entry must not keep the interval from being stored
+        if rng.chance(1, 6) {
+            let k = match rng.below(3) {
+                0 => "last_update_time".to_string(),
+                1 => "consecutive_failed_update_checks".to_string(),
+                _ => case.setup.apps[0].id.clone(),
+            };
+            case.shape.push(format!("failkey:{}", if k.starts_with('{') { "app" } else { &k }));
+            case.fault.fail_keys.push(k);
         }
         let next = case.setup.clone();
         let run = run_case_restart(&case, &[next], &mut rng, 0);
